@@ -73,6 +73,11 @@ def check_dispatch(ctx, md, params, result_adt, rule="R-1"):
     # the caller of every decoder on the way up - nobody catches an error and carries on (the rule of C15 R-5 for every error)
     from rules import c15 as _c15
     _c15.check_rejections_propagate(ctx.under(rule, "rejections"), rule, set(), variants=None, what="any decoding error", floor=40)
+    # the label of every entry and every label-typed value is what the wire said: the label codecs carry the wire payload
+    # over unchanged (C07 R-5's recogniser; a label decoder that lower-cases text labels changes what is stored)
+    from rules import c07 as _c07
+    for _ty in ("common::Label", "common::RegisteredLabel<T>", "common::RegisteredLabelWithPrivate<T>"):
+        _c07._enum_pair(ctx.under(rule, "label-codec"), _ty)
     listed = sorted(md.listed)
     ctx.ob(rule, "cases:%s" % result_adt, listed == sorted(params),
            "the typed labels dispatched by the %s decoder are exactly %s (found %s)" % (result_adt, sorted(params), listed), where=fn.span)
